@@ -58,7 +58,7 @@ def main(tier, seed):
     metrics = list(T.ALL)
     if tier == "quick":
         rng.shuffle(metrics)
-        metrics = metrics[:8] + ["log_squared_euclidean", "jaccard"]
+        metrics = metrics[:7] + ["log_squared_euclidean", "jaccard", "euclidean", "manhattan"]
     nviol = 0
     stats = dict(runs=0, kinds={}, precomputed=0, skipped=0)
     kinds = [("sup", SupervisedOPF), ("semi", SemiSupervisedOPF), ("knn", KNNSupervisedOPF), ("unsup", UnsupervisedOPF)]
@@ -71,6 +71,10 @@ def main(tier, seed):
                 n, dim = rng.randint(8, 12), rng.randint(1, 3)
                 dom = T.domain(metric)
                 X = np.array([[rng.uniform(0.05, 5) for _ in range(dim)] for _ in range(n + 5)])
+                if kname in ("knn", "unsup") and metric in ("euclidean", "manhattan", "chebyshev", "squared_euclidean", "gower") and rng.random() < 0.6:
+                    # micro-scale coordinates: every k-NN arc is below the 1e-5 density-bound threshold (the fallback regime)
+                    X = X * 10.0 ** rng.choice([-6, -7, -9])
+                    stats["micro_scale"] = stats.get("micro_scale", 0) + 1
                 if dom == "prob":
                     X = X / X.sum(axis=1, keepdims=True)
                 elif rng.random() < 0.3:
